@@ -270,6 +270,13 @@ fn counting_case(i: u64, seed: u64) -> Out {
             let mut longer2 = b2.clone();
             longer2.push(3);
             chk!("C14/length-mismatch", judge_mismatch("SuperMinHash2::get_jaccard_index_estimate", &call(std::panic::AssertUnwindSafe(|| s2.get_jaccard_index_estimate(&longer2).ok())), m, m + 1));
+            // the f32 sketcher's method returns an f64: the ratio must be the f64 ratio, not one rounded through f32
+            let mut s3 = SuperMinHash::<f32, u64, FnvHasher>::new(m, Default::default());
+            s3.sketch_slice(&items).unwrap();
+            let a3: Vec<f32> = s3.get_hsketch().clone();
+            let alt3: Vec<f32> = a3.iter().map(|x| x + 0.125).collect();
+            let (b3, cnt3) = plant(&a3, &alt3, pattern.min(8), &mut rng);
+            chk!("C14/SuperMinHash::get_jaccard_index_estimate", judge("SuperMinHash<f32>::get_jaccard_index_estimate", &call(std::panic::AssertUnwindSafe(|| s3.get_jaccard_index_estimate(&b3).ok())), cnt3, m));
         }
     }
     out
